@@ -439,7 +439,8 @@ func ruleCacheFields(c *Ctx) {
 				if base == nil {
 					continue
 				}
-				sl := backSlice(base)
+				// the entry may have been handed to this function by the one that found it in the cache
+				sl := sliceUpN(buildConc(c), base, f, 2)
 				for _, lk := range lookups {
 					if sl[lk] {
 						readOnHit[idx] = true
